@@ -23,6 +23,8 @@ fn file_name() -> BoxedStrategy<String> {
         4 => gen::from_alphabet("abcdefghijklmnopqrstuvwxyzABCDEFGHIJKLMNOPQRSTUVWXYZ0123456789_-. ", 1, 24),
         1 => gen::from_alphabet("abcXYZ019._", 56, 63),
         1 => prop::sample::select(vec!["ffxivboot.exe", "ffxivlauncher64.exe", "é日本.dat", "a", "x.y.z.w"]).prop_map(|s| s.to_string()),
+        // every byte a file name may hold on this host but '/' and NUL: backslash, colon, quotes, wildcards, a leading dot or blank
+        1 => gen::from_alphabet("ab1.\\:*?\"'<>|;&$#%!~+=,()[]{}@^` -_", 1, 20),
     ]
     .prop_map(|mut s| {
         while s.len() > 63 {
@@ -176,7 +178,10 @@ fn list_strategy(_: &Ctx) -> BoxedStrategy<ListCase> {
     let hash = prop_oneof![4 => gen::from_alphabet("0123456789abcdef", 40, 40), 1 => gen::from_alphabet("0123456789abcdef", 0, 8)];
     let size = prop_oneof![3 => 0i64..100_000_000_000, 1 => 0i64..=i64::MAX, 1 => prop::sample::select(vec![0i64, 1, i64::MAX, 1 << 32, (1 << 53) + 1])];
     // one URL in sixty is long (around 4 KiB / 8 KiB / 64 KiB); one hash list in forty has 60..200 hashes
-    let entry = (prop_oneof![60 => wire(60), 1 => gen::long_ascii()], prop_oneof![3 => Just("2023.09.15.0000.0000".to_string()), 1 => wire(24)], size.clone(), size.clone(), size, prop_oneof![40 => vec(hash.clone(), 1..=6), 1 => vec(hash, 60..=200)], any::<i32>(), any::<i32>())
+    // a third of the URLs have the shape of the real ones: host, boot / game, an expansion segment or none, a hash, a file name
+    let real_url = (any::<bool>(), 0u8..6, gen::from_alphabet("0123456789abcdef", 8, 8), gen::from_alphabet("0123456789.", 5, 20), any::<bool>())
+        .prop_map(|(game, exp, hash, ver, h)| format!("http://patch-dl.ffxiv.com/{}/{}{}/{}{}.patch", if game { "game" } else { "boot" }, if exp == 0 { String::new() } else { format!("ex{}/", exp) }, hash, if h { "H" } else { "D" }, ver));
+    let entry = (prop_oneof![40 => wire(60), 20 => real_url, 1 => gen::long_ascii()], prop_oneof![3 => Just("2023.09.15.0000.0000".to_string()), 1 => wire(24)], size.clone(), size.clone(), size, prop_oneof![40 => vec(hash.clone(), 1..=6), 1 => vec(hash, 60..=200)], any::<i32>(), any::<i32>())
         .prop_map(|(url, version, hash_block_size, length, size_on_disk, hashes, unknown_a, unknown_b)| EntryM { url, version, hash_block_size, length, size_on_disk, hashes, unknown_a, unknown_b });
     (any::<bool>(), gen::from_alphabet("0123456789ABCDEF_", 0, 40), wire(60), prop_oneof![60 => vec(entry.clone(), 0..=8), 1 => vec(entry, 40..=120)])
         .prop_map(|(game, id, content_location, mut entries)| {
